@@ -1,8 +1,10 @@
 //! Typed random generator of core-language programs (C05, C17): mostly-valid programs over
 //! sequencing, if/else, while, multi-clause for (element / item iteration, mid-loop declarations,
 //! guards, yield, yield k: v, into), break/continue with counts and values, return, try/catch/throw,
-//! and/or/coalesce, lambdas with defaults and splats, closures escaping their scope, closures created
-//! per loop iteration, eval; plus a stream of deliberately ill-formed programs.
+//! and/or/coalesce, lambdas with defaults and splats, type-annotated lambda parameters (builtin type
+//! names, user variables holding types, side-effecting / mismatching / non-type / unbound annotations,
+//! assignments that violate the declared type), closures escaping their scope, closures created per
+//! loop iteration, eval; plus a stream of deliberately ill-formed programs.
 use crate::coreast::*;
 use crate::Rng;
 
@@ -16,6 +18,7 @@ pub enum Ty {
     Maker,   // () -> Fun0
     FunList, // list of Fun0
     Dict,    // result of `yield k: v` (only dumped at the end)
+    Type,    // a variable holding a type (`t := int`); used in parameter annotations, never dumped
 }
 
 #[derive(Clone)]
@@ -40,6 +43,16 @@ pub struct Gen {
     try_depth: usize,
     pub no_self_shadow: bool,
     last_header_names: Vec<String>,
+    /// which builtin type each `Ty::Type` variable holds (type variables are never reassigned by
+    /// generated statements; the C17 case reassigns the outer ones by hand between the calls)
+    type_held: std::collections::HashMap<String, &'static str>,
+    /// > 0 while generating the right operand of `++` / `$` / `*` (or the right-hand side of the
+    /// corresponding op-assignment) inside a loop or a function body: no variable is mentioned there, so
+    /// that `x = x ++ x`, `s $= s`, `n *= n` cannot double a value on every iteration (one interpreter
+    /// step each: the step budget does not bound the memory; seen: 64 GB)
+    no_grow_vars: u32,
+    /// C17 mode: an unbound name in an annotation makes the freeze fail; only the must-fail kinds do that
+    no_unbound_ann: bool,
 }
 
 const STRS: &[&str] = &["a", "bc", "", "xyz", "q"];
@@ -62,6 +75,9 @@ impl Gen {
             try_depth: 0,
             no_self_shadow: false,
             last_header_names: vec![],
+            type_held: Default::default(),
+            no_grow_vars: 0,
+            no_unbound_ann: false,
         }
     }
     fn feat(&mut self, f: &'static str) {
@@ -85,6 +101,9 @@ impl Gen {
         out
     }
     fn pick_var(&mut self, ty: &Ty) -> Option<String> {
+        if self.no_grow_vars > 0 && *ty != Ty::Type {
+            return None;
+        }
         let vs = self.vars_of(ty);
         if vs.is_empty() {
             None
@@ -110,6 +129,18 @@ impl Gen {
         let r = f(self);
         for (fr, l) in self.frames.iter_mut().zip(lens) {
             fr.truncate(l);
+        }
+        r
+    }
+    /// run `f` with variable references switched off if we are inside a loop or a function body
+    fn bounded<T>(&mut self, f: impl FnOnce(&mut Gen) -> T) -> T {
+        let guard = self.loop_depth > 0 || self.in_lambda > 0;
+        if guard {
+            self.no_grow_vars += 1;
+        }
+        let r = f(self);
+        if guard {
+            self.no_grow_vars -= 1;
         }
         r
     }
@@ -142,7 +173,8 @@ impl Gen {
             },
             4 | 5 | 6 => {
                 let o = *self.rng.pick(&["+", "-", "*"]);
-                let (x, y) = (self.gen_int(d - 1), self.gen_int(d - 1));
+                let x = self.gen_int(d - 1);
+                let y = if o == "*" { self.bounded(|g| g.gen_int(d - 1)) } else { self.gen_int(d - 1) };
                 if self.rng.chance(1, 8) {
                     // operators are ordinary functions: call form `-(a, b)`
                     self.feat("op-call-form");
@@ -209,6 +241,9 @@ impl Gen {
                 Expr::Seq(xs, false)
             }
             16 => {
+                if self.rng.chance(1, 3) {
+                    return self.gen_try_local(d - 1);
+                }
                 self.feat("try-expr");
                 let body = self.conditional(|g| g.gen_throwing_int(d - 1));
                 let (p, c) = self.gen_catch(d - 1);
@@ -299,6 +334,46 @@ impl Gen {
             3 => Expr::Index(b(self.gen_list(d)), b(Expr::Int(9))),
             _ => self.gen_int(d),
         }
+    }
+    /// `try (q := safe; …may raise…) catch e -> …reads / assigns q…`: the try body runs in the enclosing
+    /// scope, so a name it declares (always, first thing) is visible to the handler and afterwards
+    fn gen_try_local(&mut self, d: u32) -> Expr {
+        self.feat("try-local-in-handler");
+        let q = self.fresh();
+        let init = match self.pick_var(&Ty::Int) {
+            Some(v) if self.rng.chance(1, 2) => Expr::Ident(v),
+            _ => Expr::Int(self.small_int()),
+        };
+        self.declare(&q, Ty::Int);
+        self.try_depth += 1;
+        let rest = self.conditional(|g| {
+            let mut xs = vec![];
+            if g.rng.chance(1, 2) {
+                xs.push(Expr::OpAssign(q.clone(), "+".into(), b(g.gen_int(d))));
+            }
+            xs.push(g.gen_throwing_int(d));
+            xs
+        });
+        self.try_depth -= 1;
+        let mut body = vec![Expr::Declare(Pat::Ident(q.clone()), b(init))];
+        body.extend(rest);
+        let e = self.fresh();
+        let handler = self.in_frame(|g| {
+            g.conditional(|g| {
+                let a = g.gen_int(d);
+                let mut xs = vec![];
+                if g.rng.chance(1, 2) {
+                    xs.push(Expr::Assign(q.clone(), b(Expr::Op("+".into(), b(Expr::Ident(q.clone())), b(a.clone())))));
+                }
+                xs.push(Expr::If(
+                    b(Expr::Op("==".into(), b(Expr::Ident(e.clone())), b(Expr::Int(*g.rng.pick(&[1, 2, 3]))))),
+                    b(Expr::Op("+".into(), b(Expr::Ident(q.clone())), b(a))),
+                    Some(b(Expr::Ident(q.clone()))),
+                ));
+                Expr::Seq(xs, false)
+            })
+        });
+        Expr::Try(b(Expr::Seq(body, false)), Pat::Ident(e), b(handler))
     }
     fn gen_catch(&mut self, d: u32) -> (Pat, Expr) {
         // catch clause: fresh scope; the caught value is only compared with ints
@@ -405,7 +480,7 @@ impl Gen {
             return Expr::Str(self.rng.pick(STRS).to_string());
         }
         let a = if self.rng.chance(1, 2) { self.gen_int(d - 1) } else { self.gen_str(d - 1) };
-        let bb = if self.rng.chance(1, 2) { self.gen_int(d - 1) } else { self.gen_str(d - 1) };
+        let bb = self.bounded(|g| if g.rng.chance(1, 2) { g.gen_int(d - 1) } else { g.gen_str(d - 1) });
         Expr::Op("$".into(), b(a), b(bb))
     }
     pub fn gen_list(&mut self, d: u32) -> Expr {
@@ -428,7 +503,11 @@ impl Gen {
                 Some(v) => Expr::Ident(v),
                 None => Expr::List(vec![Expr::Int(1), Expr::Int(2)]),
             },
-            3 => Expr::Op("++".into(), b(self.gen_list(d - 1)), b(self.gen_list(d - 1))),
+            3 => {
+                let l = self.gen_list(d - 1);
+                let r = self.bounded(|g| g.gen_list(d - 1));
+                Expr::Op("++".into(), b(l), b(r))
+            }
             4 | 5 => {
                 self.feat("yield");
                 self.in_frame(|g| {
@@ -439,8 +518,9 @@ impl Gen {
                     let into = if g.rng.chance(1, 4) {
                         g.feat("yield-into-lambda");
                         let l = g.fresh();
+                        let ann = g.gen_ann_safe(&Ty::List);
                         Some(b(Expr::Lambda(
-                            vec![Param { name: l.clone(), dflt: None, splat: false }],
+                            vec![Param { name: l.clone(), dflt: None, splat: false, ann }],
                             b(Expr::Op("++".into(), b(Expr::Ident(l)), b(Expr::List(vec![Expr::Int(0)])))),
                         )))
                     } else {
@@ -481,6 +561,157 @@ impl Gen {
             6 => self.gen_list(d1),
             _ => self.gen_int(d1),
         }
+    }
+    // ---------------------------------------------------------------- parameter annotations
+    /// builtin type names a value of generator type `ty` satisfies
+    fn type_names_for(ty: &Ty) -> &'static [&'static str] {
+        match ty {
+            Ty::Int => &["int", "int", "number", "anything"],
+            Ty::Str => &["str", "str", "anything"],
+            Ty::List | Ty::FunList => &["list", "list", "anything"],
+            Ty::Fun0 | Ty::Fun1 | Ty::Maker => &["func", "anything"],
+            Ty::Dict => &["dict", "anything"],
+            Ty::Type => &["type", "func", "anything"],
+        }
+    }
+    const ALL_TYPE_NAMES: &'static [&'static str] = &["int", "number", "str", "list", "dict", "func", "type", "anything", "nulltype"];
+    fn type_name_matches(name: &str, ty: &Ty) -> bool {
+        Self::type_names_for(ty).contains(&name)
+    }
+    /// an annotation expression that a value of type `want` satisfies: a builtin type name or a variable
+    /// in scope that holds a suitable type; sometimes wrapped so that its evaluation is observable
+    fn gen_ann_ok(&mut self, want: &Ty) -> Expr {
+        let held: Vec<String> = self
+            .vars_of(&Ty::Type)
+            .into_iter()
+            .filter(|v| self.type_held.get(v).map_or(false, |n| Self::type_name_matches(n, want)))
+            .collect();
+        let e = if !held.is_empty() && self.rng.chance(2, 3) {
+            self.feat("ann-type-variable");
+            Expr::Ident(held[self.rng.below(held.len() as u64) as usize].clone())
+        } else {
+            self.feat("ann-builtin-type");
+            Expr::Ident(self.rng.pick(Self::type_names_for(want)).to_string())
+        };
+        self.ann_wrap(e)
+    }
+    fn ann_wrap(&mut self, e: Expr) -> Expr {
+        if self.rng.chance(1, 6) {
+            self.feat("ann-side-effect");
+            Expr::Seq(vec![Expr::Call(b(Expr::Ident("print".into())), vec![Expr::Str("T".into())]), e], false)
+        } else {
+            e
+        }
+    }
+    /// an annotation that makes the call raise: another type, `null` (the null type), something that is
+    /// not a type, or a name that does not exist (name error at call time, at freeze time when frozen)
+    fn gen_ann_bad(&mut self, want: &Ty) -> Expr {
+        let e = match self.rng.below(if self.no_unbound_ann { 4 } else { 5 }) {
+            0 | 1 => {
+                self.feat("ann-mismatch");
+                let others: Vec<&'static str> =
+                    Self::ALL_TYPE_NAMES.iter().cloned().filter(|n| !Self::type_name_matches(n, want)).collect();
+                let held: Vec<String> = self
+                    .vars_of(&Ty::Type)
+                    .into_iter()
+                    .filter(|v| self.type_held.get(v).map_or(false, |n| !Self::type_name_matches(n, want)))
+                    .collect();
+                if !held.is_empty() && self.rng.chance(1, 2) {
+                    Expr::Ident(held[self.rng.below(held.len() as u64) as usize].clone())
+                } else {
+                    Expr::Ident(self.rng.pick(&others).to_string())
+                }
+            }
+            2 => {
+                self.feat("ann-null-type");
+                Expr::Null
+            }
+            3 => {
+                self.feat("ann-not-a-type");
+                match self.rng.below(3) {
+                    0 => Expr::Int(self.small_int()),
+                    1 => Expr::Str("int".into()),
+                    _ => match self.pick_var(&Ty::Int) {
+                        Some(v) => Expr::Ident(v),
+                        None => Expr::List(vec![]),
+                    },
+                }
+            }
+            _ => {
+                self.feat("ann-unbound-name");
+                Expr::Ident("zz_no_such_type".into())
+            }
+        };
+        self.ann_wrap(e)
+    }
+    /// annotation for a parameter of a lambda whose calls are NOT guarded: none (mostly) or a fitting one
+    fn gen_ann_safe(&mut self, want: &Ty) -> Option<Expr> {
+        if self.rng.chance(2, 5) {
+            Some(self.gen_ann_ok(want))
+        } else {
+            None
+        }
+    }
+    /// annotation for a parameter of a lambda whose calls are guarded by `try`
+    fn gen_ann_any(&mut self, want: &Ty) -> Option<Expr> {
+        match self.rng.below(10) {
+            0 | 1 | 2 => None,
+            3 | 4 => Some(self.gen_ann_bad(want)),
+            _ => Some(self.gen_ann_ok(want)),
+        }
+    }
+    /// `tN := <type>`: a variable holding a type, for later parameter annotations
+    fn gen_type_decl(&mut self) -> Expr {
+        self.feat("type-variable");
+        let t = self.fresh();
+        let name: &'static str = *self.rng.pick(&["int", "int", "str", "list", "anything", "number", "func"]);
+        self.declare(&t, Ty::Type);
+        self.readonly.insert(t.clone());
+        self.type_held.insert(t.clone(), name);
+        Expr::Declare(Pat::Ident(t), b(Expr::Ident(name.into())))
+    }
+    /// a function with one typed parameter whose body assigns to it: the declared type stays attached to
+    /// the variable, so an assignment of another kind raises (and a failed op-assignment leaves null);
+    /// every violation is caught inside the body, the function returns `[p]`
+    fn gen_typed_param_stmt(&mut self, d: u32) -> Expr {
+        self.feat("typed-param-assign");
+        let (f, p) = (self.fresh(), self.fresh());
+        let want = if self.rng.chance(3, 4) { Ty::Int } else { Ty::Str };
+        let ann = if self.rng.chance(1, 8) { self.gen_ann_bad(&want) } else { self.gen_ann_ok(&want) };
+        let id = |s: &str| Expr::Ident(s.to_string());
+        let print = |s: &str| Expr::Call(b(id("print")), vec![Expr::Str(s.to_string())]);
+        let n = 1 + self.rng.below(3);
+        let mut xs = vec![];
+        for i in 0..n {
+            let tag = format!("c{}", i);
+            let int_rhs = Expr::Int(self.small_int());
+            let str_rhs = Expr::Str(self.rng.pick(STRS).to_string());
+            let st = match self.rng.below(6) {
+                0 => Expr::Assign(p.clone(), b(if want == Ty::Int { str_rhs } else { int_rhs })),
+                1 => Expr::Assign(p.clone(), b(if want == Ty::Int { int_rhs } else { str_rhs })),
+                2 => Expr::OpAssign(p.clone(), "$".into(), b(str_rhs)),
+                3 => Expr::OpAssign(p.clone(), "+".into(), b(int_rhs)),
+                4 => Expr::Assign(p.clone(), b(Expr::Null)),
+                _ => {
+                    // through an inner closure: the check belongs to the variable, not to the scope
+                    let g = self.fresh();
+                    let rhs = if self.rng.chance(1, 2) { str_rhs } else { int_rhs };
+                    Expr::Seq(
+                        vec![
+                            Expr::Declare(Pat::Ident(g.clone()), b(Expr::Lambda(vec![], b(Expr::Assign(p.clone(), b(rhs)))))),
+                            Expr::Call(b(Expr::Ident(g)), vec![]),
+                        ],
+                        true,
+                    )
+                }
+            };
+            xs.push(Expr::Try(b(st), Pat::Underscore, b(print(&tag))));
+        }
+        xs.push(Expr::List(vec![id(&p)]));
+        let lam = Expr::Lambda(vec![Param { name: p, dflt: None, splat: false, ann: Some(ann) }], b(Expr::Seq(xs, false)));
+        let arg = if want == Ty::Int { self.gen_int(d) } else { self.gen_str(d) };
+        let call = Expr::Try(b(Expr::Call(b(id(&f)), vec![arg])), Pat::Underscore, b(Expr::Int(-4)));
+        Expr::Seq(vec![Expr::Declare(Pat::Ident(f), b(lam)), Expr::Call(b(id("print")), vec![call])], true)
     }
     fn gen_lambda_body(&mut self, d: u32) -> Expr {
         // statements that may mutate captured variables, then an int
@@ -540,7 +771,8 @@ impl Gen {
         });
         self.loop_depth = saved.0;
         self.in_lambda = saved.1;
-        Expr::Lambda(vec![Param { name: p, dflt: None, splat: false }], b(body))
+        let ann = self.gen_ann_safe(&Ty::Int);
+        Expr::Lambda(vec![Param { name: p, dflt: None, splat: false, ann }], b(body))
     }
 
     // ---------------------------------------------------------------- statements
@@ -583,13 +815,13 @@ impl Gen {
                 match self.rng.below(4) {
                     0 => {
                         if let Some(v) = self.pick_assignable(&Ty::Str) {
-                            return Expr::OpAssign(v, "$".into(), b(self.gen_str(d)));
+                            return Expr::OpAssign(v, "$".into(), b(self.bounded(|g| g.gen_str(d))));
                         }
                     }
                     1 => {
                         if let Some(v) = self.pick_assignable(&Ty::List) {
                             return if self.rng.chance(1, 2) {
-                                Expr::OpAssign(v, "++".into(), b(self.gen_list(d)))
+                                Expr::OpAssign(v, "++".into(), b(self.bounded(|g| g.gen_list(d))))
                             } else {
                                 Expr::OpAssign(v, "append".into(), b(self.gen_int(d)))
                             };
@@ -600,7 +832,8 @@ impl Gen {
                 match self.pick_assignable(&Ty::Int) {
                     Some(v) => {
                         let o = *self.rng.pick(&["+", "-", "*"]);
-                        Expr::OpAssign(v, o.into(), b(self.gen_int(d)))
+                        let rhs = if o == "*" { self.bounded(|g| g.gen_int(d)) } else { self.gen_int(d) };
+                        Expr::OpAssign(v, o.into(), b(rhs))
                     }
                     None => Expr::Call(b(Expr::Ident("print".into())), vec![self.gen_str(d)]),
                 }
@@ -700,6 +933,9 @@ impl Gen {
                 Expr::If(b(c), b(Expr::Throw(b(Expr::Int(*self.rng.pick(&[1, 2, 3]))))), None)
             }
             17 | 18 if d > 0 => {
+                if self.rng.chance(1, 4) {
+                    return self.gen_try_local(d - 1);
+                }
                 self.feat("try");
                 self.try_depth += 1;
                 let body = self.conditional(|g| g.gen_block(d - 1));
@@ -811,16 +1047,16 @@ impl Gen {
                 };
                 let use_splat = self.allow_splat && self.rng.chance(1, 2);
                 let mut params = vec![
-                    Param { name: p1.clone(), dflt: None, splat: false },
-                    Param { name: p2.clone(), dflt: Some(dflt_expr.clone()), splat: false },
+                    Param { name: p1.clone(), dflt: None, splat: false, ann: None },
+                    Param { name: p2.clone(), dflt: Some(dflt_expr.clone()), splat: false, ann: None },
                 ];
                 let body = if use_splat {
                     self.feat("lambda-splat");
                     match self.rng.below(3) {
                         0 => {
                             params = vec![
-                                Param { name: p1.clone(), dflt: None, splat: false },
-                                Param { name: p3.clone(), dflt: None, splat: true },
+                                Param { name: p1.clone(), dflt: None, splat: false, ann: None },
+                                Param { name: p3.clone(), dflt: None, splat: true, ann: None },
                             ];
                             Expr::Op("+".into(), b(Expr::Ident(p1.clone())), b(Expr::Call(b(Expr::Ident("len".into())), vec![Expr::Ident(p3.clone())])))
                         }
@@ -828,17 +1064,17 @@ impl Gen {
                             // a default AFTER the splat: the default applies only when no argument is left for it
                             self.feat("lambda-splat-then-default");
                             params = vec![
-                                Param { name: p1.clone(), dflt: None, splat: false },
-                                Param { name: p3.clone(), dflt: None, splat: true },
-                                Param { name: p2.clone(), dflt: Some(dflt_expr.clone()), splat: false },
+                                Param { name: p1.clone(), dflt: None, splat: false, ann: None },
+                                Param { name: p3.clone(), dflt: None, splat: true, ann: None },
+                                Param { name: p2.clone(), dflt: Some(dflt_expr.clone()), splat: false, ann: None },
                             ];
                             Expr::List(vec![Expr::Ident(p1.clone()), Expr::Ident(p3.clone()), Expr::Ident(p2.clone())])
                         }
                         _ => {
                             self.feat("lambda-splat-then-default");
                             params = vec![
-                                Param { name: p3.clone(), dflt: None, splat: true },
-                                Param { name: p2.clone(), dflt: Some(dflt_expr.clone()), splat: false },
+                                Param { name: p3.clone(), dflt: None, splat: true, ann: None },
+                                Param { name: p2.clone(), dflt: Some(dflt_expr.clone()), splat: false, ann: None },
                             ];
                             Expr::List(vec![Expr::Ident(p3.clone()), Expr::Ident(p2.clone())])
                         }
@@ -846,6 +1082,21 @@ impl Gen {
                 } else {
                     Expr::Op("*".into(), b(Expr::Ident(p1.clone())), b(Expr::Ident(p2.clone())))
                 };
+                // type annotations on any of the parameters (the splat receives a list); the call is
+                // guarded, so annotations that do not fit / are not types / do not exist are included.
+                // A default that prints shows where defaults run relative to the annotations.
+                if self.rng.chance(1, 2) {
+                    self.feat("lambda-annotated-params");
+                    for prm in params.iter_mut() {
+                        let want = if prm.splat { Ty::List } else { Ty::Int };
+                        prm.ann = self.gen_ann_any(&want);
+                        if prm.dflt.is_some() && self.rng.chance(1, 3) {
+                            self.feat("default-side-effect");
+                            let dd = prm.dflt.take().unwrap();
+                            prm.dflt = Some(Expr::Seq(vec![Expr::Call(b(Expr::Ident("print".into())), vec![Expr::Str("D".into())]), dd], false));
+                        }
+                    }
+                }
                 let nargs = self.rng.below(4) as usize;
                 let args: Vec<Expr> = (0..nargs).map(|_| self.gen_int(d - 1)).collect();
                 let call = Expr::Call(b(Expr::Ident(f.clone())), args);
@@ -890,6 +1141,8 @@ impl Gen {
                 let f = self.gen_fun0(d);
                 Expr::Call(b(f), vec![])
             }
+            28 => self.gen_type_decl(),
+            29 if d > 0 => self.gen_typed_param_stmt(d - 1),
             _ => {
                 let x = self.fresh();
                 let e = self.gen_int(d);
@@ -907,7 +1160,43 @@ impl Gen {
     // ---------------------------------------------------------------- faults
     fn gen_fault(&mut self) -> Expr {
         self.faulty = true;
-        match self.rng.below(7) {
+        match self.rng.below(10) {
+            7 => {
+                self.feat("fault-annotation-mismatch");
+                let x = self.fresh();
+                let ann = *self.rng.pick(&["str", "list", "nulltype", "dict", "func", "type"]);
+                Expr::Call(
+                    b(Expr::Lambda(vec![Param { name: x.clone(), dflt: None, splat: false, ann: Some(Expr::Ident(ann.into())) }], b(Expr::Ident(x)))),
+                    vec![Expr::Int(1)],
+                )
+            }
+            8 => {
+                self.feat("fault-annotation-not-a-type");
+                let x = self.fresh();
+                let ann = match self.rng.below(3) {
+                    0 => Expr::Int(5),
+                    1 => Expr::Ident("len".into()),
+                    _ => Expr::Ident("zz_no_such_type".into()),
+                };
+                Expr::Call(
+                    b(Expr::Lambda(vec![Param { name: x.clone(), dflt: None, splat: false, ann: Some(ann) }], b(Expr::Ident(x)))),
+                    vec![Expr::Int(1)],
+                )
+            }
+            9 => {
+                self.feat("fault-typed-param-assign");
+                let x = self.fresh();
+                let (ann, rhs) = if self.rng.chance(1, 2) { ("int", Expr::Str("s".into())) } else { ("str", Expr::Int(3)) };
+                let arg = if ann == "int" { Expr::Int(1) } else { Expr::Str("a".into()) };
+                let st = if self.rng.chance(1, 2) { Expr::Assign(x.clone(), b(rhs)) } else { Expr::OpAssign(x.clone(), if ann == "int" { "$".into() } else { "+".into() }, b(rhs)) };
+                Expr::Call(
+                    b(Expr::Lambda(
+                        vec![Param { name: x.clone(), dflt: None, splat: false, ann: Some(Expr::Ident(ann.into())) }],
+                        b(Expr::Seq(vec![st, Expr::Ident(x)], false)),
+                    )),
+                    vec![arg],
+                )
+            }
             0 => {
                 self.feat("fault-undeclared-read");
                 Expr::Call(b(Expr::Ident("print".into())), vec![Expr::Ident("undeclared_name".into())])
@@ -978,6 +1267,7 @@ impl Gen {
     pub fn gen_freeze_case(&mut self, kind: u64) -> FreezeCase {
         self.allow_eval = false;
         self.no_self_shadow = true;
+        self.no_unbound_ann = true;
         let mut prelude = vec![];
         let mut outer: Vec<(String, Ty)> = vec![];
         let n = 2 + self.rng.below(3);
@@ -993,13 +1283,26 @@ impl Gen {
             outer.push((x.clone(), ty));
             prelude.push(Expr::Declare(Pat::Ident(x), b(e)));
         }
+        // outer variables holding types, for parameter annotations inside the lambda under test; they
+        // are reassigned (to a type the argument does NOT have) between the two frozen calls
+        let mut outer_types: Vec<(String, &'static str)> = vec![];
+        let ntypes = self.rng.below(3);
+        for i in 0..ntypes {
+            let t = format!("t{}", i + 1);
+            let name: &'static str = *self.rng.pick(&["int", "int", "number", "anything", "list", "str"]);
+            self.declare(&t, Ty::Type);
+            self.readonly.insert(t.clone());
+            self.type_held.insert(t.clone(), name);
+            outer_types.push((t.clone(), name));
+            prelude.push(Expr::Declare(Pat::Ident(t), b(Expr::Ident(name.into()))));
+        }
         // a pure outer function reading an outer int
         let k = self.small_int();
         let of = "of1".to_string();
         prelude.push(Expr::Declare(
             Pat::Ident(of.clone()),
             b(Expr::Lambda(
-                vec![Param { name: "q".into(), dflt: None, splat: false }],
+                vec![Param { name: "q".into(), dflt: None, splat: false, ann: None }],
                 b(Expr::Op("+".into(), b(Expr::Op("*".into(), b(Expr::Ident("q".into())), b(Expr::Int(k)))), b(Expr::Int(1)))),
             )),
         ));
@@ -1058,7 +1361,33 @@ impl Gen {
             }
             _ => {}
         }
-        let lambda = Expr::Lambda(vec![Param { name: p, dflt: None, splat: false }], b(body));
+        // the parameter of the lambda under test: often annotated, preferably through an outer type
+        // variable (a free variable of the lambda that occurs ONLY in the parameter list)
+        let mut p_ann: Option<Expr> = None;
+        match kind {
+            4 => {
+                self.feat("fail-unbound-annotation");
+                expect_fail = true;
+                p_ann = Some(Expr::Ident("zz_unbound_type".into()));
+            }
+            5 => {
+                // …in a nested lambda that is never even created
+                self.feat("fail-unbound-annotation-nested");
+                expect_fail = true;
+                let w = self.fresh();
+                let dead = Expr::Lambda(
+                    vec![Param { name: w.clone(), dflt: None, splat: false, ann: Some(Expr::Ident("zz_unbound_type".into())) }],
+                    b(Expr::Ident(w)),
+                );
+                body = Expr::Seq(vec![Expr::If(b(Expr::Int(0)), b(dead), None), body], false);
+            }
+            _ => {}
+        }
+        if p_ann.is_none() && self.rng.chance(3, 5) {
+            self.feat("annotated-parameter-under-test");
+            p_ann = Some(if self.rng.chance(1, 12) { self.gen_ann_bad(&Ty::Int) } else { self.gen_ann_ok(&Ty::Int) });
+        }
+        let lambda = Expr::Lambda(vec![Param { name: p, dflt: None, splat: false, ann: p_ann }], b(body));
         let arg = Expr::Int(self.small_int());
         // reassign every outer variable (and the outer function) between the two frozen calls
         let mut reassign = vec![];
@@ -1069,9 +1398,14 @@ impl Gen {
                 _ => Expr::Assign(x.clone(), b(Expr::Op("++".into(), b(Expr::Ident(x.clone())), b(Expr::List(vec![Expr::Int(9), Expr::Int(9)]))))),
             });
         }
+        for (t, held) in outer_types.iter() {
+            // to a type an int argument does not satisfy (or, for those, to one it does)
+            let to = if matches!(*held, "int" | "number" | "anything") { *self.rng.pick(&["str", "list", "nulltype"]) } else { "int" };
+            reassign.push(Expr::Assign(t.clone(), b(Expr::Ident(to.into()))));
+        }
         reassign.push(Expr::Assign(
             "of1".into(),
-            b(Expr::Lambda(vec![Param { name: "q".into(), dflt: None, splat: false }], b(Expr::Int(-1000)))),
+            b(Expr::Lambda(vec![Param { name: "q".into(), dflt: None, splat: false, ann: None }], b(Expr::Int(-1000)))),
         ));
         FreezeCase { prelude, lambda, arg, reassign, expect_fail }
     }
